@@ -47,13 +47,20 @@ def windowAxis (P : Axis) (lo hi : Int) : Axis := ⟨P.edge lo, P.p, hi - lo⟩
 def readNodata (isMasked : Bool) (dsNodata : Option Int) : Option Int := if isMasked then none else dsNodata
 
 /-- `to_rio_dataset` along one axis: a block holding pixels `[b0, b0 + len)` (dataset pixel coordinates, same
-    grid) is written through window `[lo, hi)`: the window is cropped to the dataset, the block is sliced to the
-    cropped window (it must contain it - also when the cropped window is empty -, else `ValueError`), and the slice
-    is stored.  Result: the cropped window, or `none` (error). -/
+    grid) is written through window `[lo, hi)`: the window is cropped to the dataset; an empty cropped window means
+    there is nothing to write (the call returns); otherwise the block is sliced to the cropped window (it must contain
+    it, else `ValueError`) and the slice is stored.  Result: the cropped window, or `none` (error). -/
 def writeTarget (n b0 blen lo hi : Int) : Option Win1 :=
   let w := (boundedFixed n lo hi).1
+  if w.len ≤ 0 then some w else
   -- slice_to_bounds accepts when the window's offset inside the block is non-negative and its size is at most the
   -- block's; numpy slicing then clamps to the block, and to_rio_dataset requires the sliced size to equal the window's
+  let off := w.lo - b0
+  if 0 ≤ off ∧ w.len ≤ blen ∧ min (off + w.len) blen - min off blen = w.len then some w else none
+
+/-- `to_rio_dataset` **before the second repair** (D13): an empty cropped window still had to lie inside the block -/
+def writeTargetCoded (n b0 blen lo hi : Int) : Option Win1 :=
+  let w := (boundedFixed n lo hi).1
   let off := w.lo - b0
   if 0 ≤ off ∧ w.len ≤ blen ∧ min (off + w.len) blen - min off blen = w.len then some w else none
 
@@ -63,5 +70,15 @@ def writeWindow {α : Type} (n : Int) (ds : Int → α) (b0 blen : Int) (block :
   match writeTarget n b0 blen lo hi with
   | none => none
   | some w => some fun x => if w.lo ≤ x ∧ x < w.hi then block (x - b0) else ds x
+
+/-- the 2-D write: when the cropped window is empty along either axis nothing is written and the call succeeds
+    whatever the other axis looks like; otherwise both axes must pass the containment test -/
+def writeWindow2 {α : Type} (nr nc : Int) (ds : Int → Int → α) (br0 brlen bc0 bclen : Int) (block : Int → Int → α)
+    (rlo rhi clo chi : Int) : Option (Int → Int → α) :=
+  if (boundedFixed nr rlo rhi).1.len ≤ 0 ∨ (boundedFixed nc clo chi).1.len ≤ 0 then some ds else
+  match writeTarget nr br0 brlen rlo rhi, writeTarget nc bc0 bclen clo chi with
+  | some wr, some wc =>
+    some fun r c => if (wr.lo ≤ r ∧ r < wr.hi) ∧ (wc.lo ≤ c ∧ c < wc.hi) then block (r - br0) (c - bc0) else ds r c
+  | _, _ => none
 
 end Homonim
